@@ -1,4 +1,174 @@
+//! C05 - no frontend input can crash the backend or reach the handler unvalidated.
+//!
+//! hv part: hostile byte streams (fuzz.rs) with attached descriptors are fed to the real
+//! `BackendReqHandler` after a random negotiation history. Oracles: (a) no panic / overflow /
+//! debug assertion (harness built with overflow-checks + debug-assertions, panic hook), the
+//! process does not die (the driver sees signals), sanitizer overlays in the thorough tier;
+//! (b) the recording handler checks every invocation against the independent validity
+//! predicate (`spec::valid`). The daemon part lives in the hd harness.
+
+use crate::c04::ROp;
+use crate::fuzz;
+use crate::ops::{self, FeOp};
+use crate::rec::Script;
+use crate::util;
 use crate::Cfg;
-pub fn run(_cfg: &Cfg) {
-    common::report::inconclusive("not implemented");
+use common::spec;
+use common::{jo, report, Rng, J};
+use std::os::unix::io::AsRawFd;
+
+pub fn run_stream(cfg: &Cfg, alphabet: &[ROp], rng: &mut Rng, case: &str) {
+    let mut script = util::full_script();
+    script.drop_files = rng.chance(1, 2);
+    if rng.chance(1, 6) {
+        script.fail = vec!["*"];
+    }
+    let (peer, mut srv, be) = util::raw_server(script);
+    // random negotiation history
+    match rng.below(4) {
+        0 => {}
+        1 => util::raw_negotiate(&peer, &mut srv, spec::VIRTIO_F_PROTOCOL_FEATURES | 1, ops::ALL_PF),
+        2 => util::raw_negotiate(&peer, &mut srv, rng.next(), rng.next()),
+        _ => util::raw_negotiate(&peer, &mut srv, spec::VIRTIO_F_PROTOCOL_FEATURES, rng.next() & ops::ALL_PF),
+    }
+    let stream = fuzz::gen_backend_stream(alphabet, rng);
+    let sent = fuzz::send_stream(peer.as_raw_fd(), &stream);
+    let mut results = Vec::new();
+    for _ in 0..64 {
+        match util::catch(|| srv.handle_request()) {
+            Ok(Ok(())) => results.push("Ok".to_string()),
+            Ok(Err(e)) => {
+                let s = format!("{e:?}");
+                let end = s.contains("Disconnected") || s.contains("PartialMessage") || s.contains("SocketBroken");
+                results.push(s);
+                if end {
+                    break;
+                }
+            }
+            Err(p) => {
+                report::violation(
+                    &format!("C05:stream:panic:{}", util::loc_file(&p.location)),
+                    jo! {"stream" => stream.j(), "panic" => p.msg, "at" => p.location, "results_before" => results.clone()},
+                    cfg.replay(case),
+                );
+                break;
+            }
+        }
+    }
+    report::eval(1);
+    report::count("streams", 1);
+    report::count("messages", stream.desc.len() as u64);
+    report::count("descriptors_attached", stream.total_fds() as u64);
+    report::count("handle_request_ok", results.iter().filter(|r| *r == "Ok").count() as u64);
+    report::count("handle_request_err", results.iter().filter(|r| *r != "Ok").count() as u64);
+    report::distinct(report::hash_str(&format!("{:?}", stream.desc)));
+    let g = be.lock().unwrap();
+    report::count("handler_invocations", g.log.len() as u64);
+    if let Some(bad) = g.invalid.first() {
+        let method = bad.split(':').next().unwrap_or("?");
+        report::violation(
+            &format!("C05:stream:unvalidated-arguments:{method}"),
+            jo! {"stream" => stream.j(), "invalid_invocation" => bad.as_str(), "handler_log" => g.log.iter().map(|c| c.j()).collect::<Vec<J>>(), "results" => results.clone()},
+            cfg.replay(case),
+        );
+    }
+    report::sample(&format!("s{}", stream.desc.len()), jo! {"stream" => stream.j(), "handle_request_results" => results, "handler_invocations" => g.log.iter().map(|c| c.method).collect::<Vec<&str>>()});
+    drop(g);
+    drop(sent);
+}
+
+/// Deterministic edge cases that random generation reaches only rarely.
+fn directed(cfg: &Cfg) {
+    let edge_regions: Vec<spec::Region> = vec![
+        spec::Region { gpa: 0, size: 0, uaddr: 0, off: 0 },
+        spec::Region { gpa: u64::MAX, size: 1, uaddr: 0, off: 0 },
+        spec::Region { gpa: 0, size: 1, uaddr: u64::MAX, off: 0 },
+        spec::Region { gpa: 0, size: 1, uaddr: 0, off: u64::MAX },
+        spec::Region { gpa: 1, size: u64::MAX, uaddr: 1, off: 1 },
+        spec::Region { gpa: 0x1000, size: u64::MAX - 0xfff, uaddr: 0, off: 0 },
+    ];
+    for (i, r) in edge_regions.iter().enumerate() {
+        for code in [spec::fe::ADD_MEM_REG, spec::fe::REM_MEM_REG, spec::fe::SET_MEM_TABLE] {
+            let (peer, mut srv, be) = util::raw_server(util::full_script());
+            util::raw_negotiate(&peer, &mut srv, spec::VIRTIO_F_PROTOCOL_FEATURES | 1, ops::ALL_PF);
+            let (body, nfds) = match code {
+                spec::fe::SET_MEM_TABLE => (spec::p_mem_table(&[*r]), 1),
+                spec::fe::ADD_MEM_REG => (spec::p_single_region(r), 1),
+                _ => (spec::p_single_region(r), 0),
+            };
+            let f = common::sys::memfd("edge", 4096);
+            let fds: Vec<i32> = if nfds == 1 { vec![f.as_raw_fd()] } else { vec![] };
+            common::sys::send_all(peer.as_raw_fd(), &spec::msg(code, 1, &body), &fds).expect("send");
+            let res = util::catch(|| srv.handle_request());
+            report::eval(1);
+            report::distinct_str(&format!("directed:region:{i}:{code}"));
+            let g = be.lock().unwrap();
+            let ok = matches!(res, Ok(Err(_))) && g.log.iter().all(|c| !c.method.contains("mem"));
+            if !ok {
+                report::violation(
+                    &format!("C05:directed:{}:invalid-region-accepted", spec::fe::name(code).to_lowercase()),
+                    jo! {"region" => format!("{r:x?}"), "result" => format!("{:?}", res.as_ref().map_err(|p| p.msg.clone())), "handler_log" => g.log.iter().map(|c| c.j()).collect::<Vec<J>>()},
+                    cfg.replay("directed"),
+                );
+            }
+        }
+    }
+    // SET_VRING_ENABLE with values other than 0/1, misaligned ring addresses, undefined flags
+    let (peer, mut srv, be) = util::raw_server(util::full_script());
+    util::raw_negotiate(&peer, &mut srv, spec::VIRTIO_F_PROTOCOL_FEATURES | 1, ops::ALL_PF);
+    let mut msgs: Vec<(String, Vec<u8>)> = Vec::new();
+    for v in [2u32, 3, 0x100, 0x8000_0000, u32::MAX] {
+        msgs.push((format!("enable={v}"), spec::msg(spec::fe::SET_VRING_ENABLE, 1, &spec::p_vring_state(0, v))));
+    }
+    for (d, u, a, fl) in [(1u64, 0u64, 0u64, 0u32), (0, 1, 0, 0), (0, 2, 0, 0), (0, 0, 1, 0), (0, 0, 0, 2), (8, 0, 0, 0), (0, 0, 0, 0x8000_0000)] {
+        msgs.push((format!("vring_addr d={d} u={u} a={a} fl={fl:#x}"), spec::msg(spec::fe::SET_VRING_ADDR, 1, &spec::p_vring_addr(0, fl, d, u, a, 0))));
+    }
+    for (o, s, fl, plen) in [(0u32, 0u32, 0u32, 0usize), (0x1000, 1, 0, 1), (0xfff, 2, 0, 2), (0, 4, 4, 4), (0, 8, 0, 4), (0, 4, 0, 8), (u32::MAX, 2, 0, 2)] {
+        msgs.push((format!("set_config o={o:#x} s={s} fl={fl} payload={plen}"), spec::msg(spec::fe::SET_CONFIG, 1, &spec::p_config(o, s, fl, &vec![0u8; plen]))));
+        msgs.push((format!("get_config o={o:#x} s={s} fl={fl} payload={plen}"), spec::msg(spec::fe::GET_CONFIG, 1, &spec::p_config(o, s, fl, &vec![0u8; plen]))));
+    }
+    for (what, m) in msgs {
+        be.lock().unwrap().log.clear();
+        common::sys::send_all(peer.as_raw_fd(), &m, &[]).expect("send");
+        let res = util::catch(|| srv.handle_request());
+        let mut d = common::sys::drain_nb(peer.as_raw_fd());
+        d.close_fds();
+        report::eval(1);
+        report::distinct_str(&format!("directed:{what}"));
+        let g = be.lock().unwrap();
+        if !matches!(res, Ok(Err(_))) || !g.log.is_empty() || !g.invalid.is_empty() {
+            report::violation(
+                &format!("C05:directed:{}:invalid-message-accepted", what.split([' ', '=']).next().unwrap_or("?")),
+                jo! {"message" => what.as_str(), "result" => format!("{:?}", res.as_ref().map_err(|p| p.msg.clone())), "handler_log" => g.log.iter().map(|c| c.j()).collect::<Vec<J>>(), "invalid" => g.invalid.clone()},
+                cfg.replay("directed"),
+            );
+        }
+    }
+    let _ = FeOp::GetFeatures;
+    let _ = Script::default();
+}
+
+pub fn run(cfg: &Cfg) {
+    report::assume("validity predicate (spec::valid) written from the statement: non-zero non-wrapping regions, 1..=32 regions with one file each, ring addresses aligned 16/2/4 with defined flags, config window in [0,0x1000) with payload length = declared size");
+    report::assume("which error is returned, and whether the endpoint keeps parsing after an error, is not judged");
+    let alphabet = fuzz::backend_alphabet();
+    if cfg.only.as_deref() == Some("directed") || cfg.only.is_none() && cfg.shard == 0 {
+        directed(cfg);
+    }
+    if let Some(o) = &cfg.only {
+        if let Some(st) = o.strip_prefix("rng:").and_then(|s| s.parse::<u64>().ok()) {
+            let mut rng = common::Rng(st);
+            run_stream(cfg, &alphabet, &mut rng, o);
+        }
+        return;
+    }
+    let mut rng = Rng::new(cfg.seed.wrapping_mul(0xc05).wrapping_add(cfg.shard.wrapping_mul(7919)));
+    let n = cfg.pick(4000, 60000);
+    for _ in 0..n {
+        let case = format!("rng:{}", rng.0);
+        run_stream(cfg, &alphabet, &mut rng, &case);
+        if report::violations_so_far() > 20 {
+            break;
+        }
+    }
 }
